@@ -15,19 +15,29 @@ TRUSTED = ["CBMC 6.11.0 (goto-cc, goto-instrument --dfcc, cbmc; built-in SAT bac
            "g++ (host compiler) for expanding the real rMap/rProp/rDoc/rOptions macros of include/rtosc/port-sugar.h into bytes",
            "x86-64 LP64 bit-vector semantics; -DNDEBUG as shipped"]
 ASSUMPTIONS = [
-    "well-formed block (wf_block): 1..k entries ':' key NUL [ '=' value NUL ], then one NUL; keys are non-empty, contain no NUL and do "
-    "NOT START with ':' (a key may contain ':' after its first byte and '=' anywhere); values contain no NUL and are otherwise arbitrary "
-    "(':' and '=' anywhere, empty allowed). A key that starts with ':' is outside the checked domain: the iterator splits such an entry "
-    "(witness findings/c17_colon_key_witness.c) - reported, not decided",
-    "the metadata is read through Port::meta() (which strips the leading ':') as the statement says; MetaContainer::length() is compared "
-    "with the block length only for containers obtained that way",
-    "bounded obligations: 1..4 entries (quick: 1..3 plus selected 4-entry shapes), key length 1..3, value length 0..3 or no value; the "
-    "SHAPE (entry count, lengths, with/without value) is fixed per obligation, the bytes are symbolic over {'a','b',':','=',' ','1'}; "
-    "the looked-up key is symbolic (length 1..3 over the same alphabet)",
-    "proof obligations: block length <= 2^16; `lands on the next entry` is proved per arbitrary ghost offset G (no early stop at G for "
-    "every G inside the entry) - the union over G is a paper step",
-    "blocks of 5..8 entries (the property's quantifier goes to 8) are not explored by the bounded family; the proof obligations and the "
-    "per-step structure (each ++ depends only on the current entry) are what carries beyond 4",
+    "well-formed block (wf_block, spec/meta_spec.h): 1..k entries ':' key NUL [ '=' value NUL ], then one NUL; keys are non-empty, contain no "
+    "NUL and do NOT START with ':' (a key may contain ':' after its first byte and '=' anywhere); values contain no NUL and are otherwise "
+    "arbitrary (':' and '=' anywhere, empty allowed). A key that starts with ':' is outside the checked domain: the reader splits such an "
+    "entry (witness findings/c17_colon_key_witness.cpp; set VERIF_C17_COLON_KEY=1 to add the failing obligation) - reported, not decided",
+    "the metadata is read through Port::meta() (which strips the leading ':') as the statement says; the obligations "
+    "C17.unstripped_container.* repeat everything for a container built from the metadata pointer itself (MetaContainer(p.metadata), as "
+    "rtosc::path_search and port-checker.cpp do)",
+    "bounded obligations: the SHAPE (entry count 1..4, key lengths 1..3, value lengths 0..3 or no value) is fixed per obligation and "
+    "enumerated by props/C17.py (quick: all 1-entry shapes, 2 entries with value lengths {none,0,1,3}, 3 entries every none/empty/non-empty "
+    "order, 4 entries every with/without-value order; thorough: more lengths); the BYTES of keys and values and the looked-up key (length "
+    "1..3) are symbolic over {'a','b',':','=',' ','1'}",
+    "inside MetaContainer::find / operator[] the calls of operator++ are replaced by its contract over the ghost view (entry j -> entry j+1, "
+    "contracts/meta.h, applied by a macro between the two extracted files); the same step is asserted of the real operator++ for every j "
+    "in the same run, and C17.shape_lookup_real.* re-run small shapes without the replacement. In the iteration part the iterator is "
+    "re-assigned the pointer values just asserted equal (cut), which keeps pointers concrete and changes nothing when the assertions hold",
+    "proof obligations (block length <= 2^16): memory safety, frame, termination and result ranges hold for all inputs under the entry "
+    "facts of wf_block; `the scan does not stop early` is stated for an arbitrary ghost offset M_G inside the entry (for metaiterator_advance "
+    "as a proved conclusion: every byte between the key start and the reported NUL is non-NUL; for operator++ and length(): assuming M_G is "
+    "no stopping place, the scan does not stop at M_G) - generalising over M_G to `lands exactly on the next entry` is a paper step, the "
+    "exact landing is decided by the bounded shape obligations",
+    "blocks of 5..8 entries (the property's quantifier goes to 8) are only sampled (quick: one shape of 6 and one of 8 entries; thorough: 12 shapes); "
+    "the per-entry proof obligations are what carries beyond 4",
+    "literal check: g++ on the host expands the real macros (sizeof and bytes of the string literal); rOptions is checked for 2 options",
 ]
 RULE = ("proof: one obligation per function under contract (loops under loop contracts, callee replaced by contract); bounded: one obligation "
         "per block shape, bytes symbolic; literal: one obligation on the bytes the real macros produce; non-trivial when >0 cbmc properties")
@@ -227,12 +237,18 @@ def enumerate_shapes(tier):
         add([(1, 1, 1), (2, 3, 2)], P((-1, 0, 2), repeat=3))             # 3 entries: every none/empty/non-empty order
         add([(1, 2, 1, 2)], P((-1, 1), repeat=4))                        # 4 entries: every with/without-value order
         add([(2, 2, 2, 2)], P((-1, 0), repeat=4))                        #            ... with empty values, equal key lengths (repeated keys)
+        add([(1, 2, 1, 2, 1, 2)], [(-1, 1, -1, 1, -1, 1)])               # 6 and 8 entries: one alternating shape each
+        add([(1, 1, 1, 1, 1, 1, 1, 1)], [(0, -1, 0, -1, 0, -1, 0, -1)])
     else:
         add(P((1, 2, 3), repeat=2), P(V5, repeat=2))
         add(P((1, 3), repeat=3), P((-1, 0, 1, 3), repeat=3))
         add([(2, 2, 2), (1, 2, 3)], P((-1, 0, 2), repeat=3))
         add([(1, 2, 1, 2), (2, 2, 2, 2), (3, 1, 3, 3), (1, 1, 1, 1)], P((-1, 0, 2), repeat=4))
         add([(3, 3, 3, 3)], P((-1, 3), repeat=4))
+        # 5..8 entries (the property's quantifier goes to 8): alternating / all-with / all-without value, short keys
+        for k in (5, 6, 8):
+            add([tuple(1 + (i % 2) for i in range(k))], [tuple(-1 if i % 2 else 1 for i in range(k)), tuple(0 if i % 2 else -1 for i in range(k)),
+                                                         (-1,) * k, (2,) * k])
     return shapes
 
 
